@@ -913,6 +913,9 @@ func runStress(job *spec.Job) spec.Result {
 		for r := 0; r < job.Rounds; r++ {
 			for i := range job.Calls {
 				oc := plainCall(&job.Calls[i])
+				if job.Calls[i].Opts.P1 == "greedy-random" {
+					continue
+				}
 				if oc.Hash != res.Solo[i].Hash || oc.ArgsMutated != "" {
 					oc.Detail = fmt.Sprintf("call %d round %d: %s (first call: %s) %s", i, r, oc.Hash, res.Solo[i].Hash, oc.ArgsMutated)
 					res.Outcomes = append(res.Outcomes, oc)
@@ -932,6 +935,9 @@ func runStress(job *spec.Job) spec.Result {
 			for r := 0; r < job.Rounds; r++ {
 				i := (gi + r) % len(job.Calls)
 				oc := plainCall(&job.Calls[i])
+				if job.Calls[i].Opts.P1 == "greedy-random" {
+					continue // clock-seeded by design: runs for the race detector's benefit, results are not comparable
+				}
 				if oc.Hash != res.Solo[i].Hash {
 					mu.Lock()
 					oc.Detail = fmt.Sprintf("goroutine %d round %d call %d: concurrent result %s differs from sequential %s; %s", gi, r, i, oc.Hash, res.Solo[i].Hash, oc.Detail)
